@@ -3,28 +3,28 @@
 (* Bounded exhaustive check of the structural-rank definitions: TLC walks  *)
 (* through every n x n zero pattern (n <= MaxN), every row permutation and *)
 (* every tall description and checks the theorems the case table relies    *)
-(* on.  One state per pattern, so the invariants are evaluated on all of   *)
-(* them and coverage is reported per state.                                *)
+(* on.  One state per pattern / tall description, so the invariants are    *)
+(* evaluated on all of them.                                               *)
 (***************************************************************************)
 EXTENDS LinSys
 
 CONSTANTS MaxN, TallN, MaxM
 
-VARIABLES kind, P, perm, tall
+VARIABLES kind, P, tall
 
-vars == <<kind, P, perm, tall>>
+vars == <<kind, P, tall>>
 
 NoTall == [m |-> 0, n |-> 0, rowmap |-> <<>>, zerocols |-> {}]
 
 Init ==
     \/ /\ kind = "square"
-       /\ \E n \in 1..MaxN : P \in Patterns(n, n) /\ perm \in Perms(n)
+       /\ \E n \in 1..MaxN : P \in Patterns(n, n)
        /\ tall = NoTall
     \/ /\ kind = "tall"
        /\ \E m \in 1..MaxM :
              tall \in {[m |-> m, n |-> TallN, rowmap |-> f, zerocols |-> z] :
                           f \in RowMaps(m), z \in SUBSET (1..TallN)}
-       /\ P = <<<<1>>>> /\ perm = <<1>>
+       /\ P = <<<<1>>>>
 
 Next == UNCHANGED vars
 Spec == Init /\ [][Next]_vars
@@ -39,7 +39,8 @@ FullRankIffTransversal ==
 
 (* the class does not depend on the order of the rows, nor on transposing *)
 ClassInvariantUnderRowPermutation ==
-    kind = "square" => Class(PermuteRows(P, perm)) = Class(P)
+    kind = "square" =>
+        \A perm \in Perms(Rows(P)) : Class(PermuteRows(P, perm)) = Class(P)
 ClassInvariantUnderTranspose ==
     kind = "square" => Class(Transpose(P)) = Class(P)
 
